@@ -10,6 +10,14 @@ Definition robs_eqb (a b : robs) : bool :=
   | _, _ => false
   end.
 
+(* with a forwarded client query the implementation's call is the model's path followed by
+   the forwarded query *)
+Definition robs_ext (m o : robs) : bool :=
+  match m, o with
+  | OPath a, OPath b => extends_b a b
+  | _, _ => robs_eqb m o
+  end.
+
 Inductive case :=
 (* library casers on names: for every word w of length len over alpha, in lexicographic
    order of positions, cases.Title(Und)(prefix+w) and CanonicalMIMEHeaderKey(prefix+w), each
@@ -106,8 +114,8 @@ Definition check_case (c : case) : bool * bool :=
        spec_init_b (ph_names segs) (ph_names be) acc)
   | CRouteQ a segs be ept bet vals epq beq query o =>
       (str_eqb (render_ep segs) ept && str_eqb (render be) bet && wf_route segs be vals &&
-       robs_eqb (serve_routed a segs be vals) o,
-       spec_route_b segs be vals o)
+       (match query with [] => robs_eqb | _ => robs_ext end) (serve_routed a segs be vals) o,
+       (match query with [] => spec_route_b | _ => spec_routeq_b end) segs be vals o)
   | CRoute a segs be ept bet vals o =>
       (str_eqb (render_ep segs) ept && str_eqb (render be) bet && wf_route segs be vals &&
        robs_eqb (serve_routed a segs be vals) o,
